@@ -534,6 +534,75 @@ static Snapshot snapshot(PolState& p) {
     return sn;
 }
 
+// Error handlers belong to one policy: with B left on the library's default
+// handlers, an unresolvable call in B must end in abort() without entering a
+// handler installed in any other policy - the other policies of the case, or
+// the default policy (set_error_handler, set_method_call_error_handler).
+// Forked child; the foreign handlers end the process with a tell-tale status.
+static std::string foreign_handler_probe(
+    PolState& b, const std::vector<PolState*>& others) {
+    World& w = *b.w;
+    std::vector<std::pair<int, std::vector<int>>> sel;
+    Spec ls = b.live->live_spec(sel);
+    World view(w, ls, sel);
+    for (std::size_t m = 0; m < view.meths.size(); ++m) {
+        Tuples tu(ls, ls.meths[m], 200);
+        while (tu.next()) {
+            if (dispatch(ls, ls.meths[m], tu.t.data()).kind == K_DEF) {
+                continue;
+            }
+            auto args = view.make_args(ls.meths[m], tu.t.data());
+            fflush(nullptr);
+            pid_t pid = fork();
+            if (pid == 0) {
+                int devnull = open("/dev/null", O_WRONLY);
+                if (devnull >= 0) {
+                    dup2(devnull, 2);
+                }
+                signal(SIGABRT, sigabrt_probe);
+                yorel::yomm2::set_error_handler(
+                    [](const error_type&) { _exit(47); });
+                yorel::yomm2::set_method_call_error_handler(
+                    [](const method_call_error&, std::size_t, type_id*) {
+                        _exit(48);
+                    });
+                for (auto q : others) {
+                    q->cfg->set_handler_mode(5);
+                }
+                b.cfg->set_handler_mode(2);
+                g_log.clear();
+                try {
+                    view.meths[m].desc->call(args.objs, args.ints, nullptr);
+                } catch (...) {
+                    _exit(44);
+                }
+                _exit(45);
+            }
+            int status = 0;
+            waitpid(pid, &status, 0);
+            int code = WIFEXITED(status) ? WEXITSTATUS(status) : -1;
+            if (code == 42) {
+                return "";
+            }
+            std::string what = code == 47 || code == 48
+                ? "was delivered to the handler installed in the default "
+                  "policy"
+                : code == 49
+                    ? "was delivered to the handler of another policy"
+                    : code == 43 ? "ran a definition"
+                    : code == 45 ? "returned to the caller"
+                    : code == 44
+                        ? "let an exception escape"
+                        : "ended the process with status " +
+                            std::to_string(status);
+            return "an unresolvable call in policy " + b.cfg->name +
+                ", left on the library's default handlers, " + what +
+                " instead of aborting";
+        }
+    }
+    return "";
+}
+
 static std::string diff_snapshot(const Snapshot& a, const Snapshot& b) {
     if (a.size() != b.size()) {
         return "the set of observations";
@@ -650,6 +719,21 @@ static Outcome run_iso(const IsoCase& c) {
             }
         } else if (op.op == "error_call" && b.clean) {
             snapshot(b); // includes a provoked error on b
+            if (op.a % 3 == 0 && !b.cfg->throw_facet) {
+                std::vector<PolState*> others;
+                for (auto& q : ps) {
+                    if (q.get() != &b) {
+                        others.push_back(q.get());
+                    }
+                }
+                auto d = foreign_handler_probe(b, others);
+                if (!d.empty()) {
+                    o.fail("isolation-handler: " + d + " (step " +
+                           std::to_string(step) + ")");
+                    break;
+                }
+                o.classes.push_back("default_handler_probe");
+            }
         }
         for (auto& [q, sn] : before) {
             Snapshot after = snapshot(*q);
